@@ -1,10 +1,13 @@
 import GridVerif.Model.Proto
 import GridVerif.Model.Elem
 import GridVerif.Model.Periodic
+import GridVerif.Model.LocalGridGen
 import GridVerif.Driver.C10
 
 /-
-  Driver of C11.  One line = one PeriodicGrid with its whole history:
+  Driver of C11.  Constructor and operations are executed by the **generated** definitions
+  (`Gen/LocalGrid.lean`: `PeriodicGrid_init`, `LocalGridGen.genPStep`); `Props/C11/Gen.lean` proves
+  that they are those of the hand model.  One line = one PeriodicGrid with its whole history:
 
     C11.hist <oned 0|1> <dim> <points: mat> <weights: vec> <realvecs: mat k×dim>
              <recivecs parameter: mat k×dim> <wrap 0|1> <nops> <op>*
@@ -18,7 +21,8 @@ import GridVerif.Driver.C10
          | E <error>
 -/
 namespace GridVerif.Driver.C11
-open GridVerif.Proto GridVerif.LocalGrid GridVerif.Periodic
+open GridVerif.Proto GridVerif.LocalGrid GridVerif.Periodic GridVerif.LocalGridGen
+open GridVerif.Gen.LocalGrid (PeriodicGrid_init)
 open GridVerif.Driver.C10 (P pTok pBool pOps sErr)
 
 def sIntv (iv : List (Float × Float)) : String :=
@@ -35,7 +39,9 @@ combination of every entry, recomputed with `entries`). -/
 def runShow (g : PGrid Float) : List (Op Float) → List String
   | [] => []
   | op :: ops =>
-    let (g', o) := step g (toPOp op)
+    match genPStep g (toPOp op) with
+    | none => ["unmodelled"]   -- the generated code left the modelled fragment
+    | some (g', o) =>
     let s : String := match o, op with
       | .out (.localGrid idx lp lw), .query c (.fin r) =>
         let tree := match g.tree with
@@ -65,9 +71,10 @@ def handle : List String → Option String
     let (nops, ts) ← pTok pNat ts
     let (ops, ts) ← pOps nops ts
     if ts ≠ [] then none else
-    match construct oned dim pts w rv reci wrap with
-    | .error e => pure (sErr e)
-    | .ok g =>
+    match PeriodicGrid_init oned dim pts w rv reci wrap with
+    | none => pure "unmodelled"
+    | some (.error e) => pure (sErr e)
+    | some (.ok g) =>
       let head := s!"C {sMat sFloat g.points} {sMat sFloat g.recivecs} {sFloats g.spacings} {sIntv g.fracIntvls}"
       pure ("ok " ++ String.intercalate " | " (head :: runShow g ops))
   | _ => none
